@@ -29,7 +29,7 @@ W = 'circus.watcher:Watcher.'
 
 
 def check(run, ctx):
-    run.each(ctx, [r1, r2, r3, r5, r6, r7])
+    run.each(ctx, [r1, r2, r3, r5, r6, r7, r8])
 
 
 def _f(ctx):
@@ -330,3 +330,12 @@ def r6(run, ctx):
     gn = [s.node for s in ctx.sites_calling(f, ['circus.config:get_config'])]
     run.check('R6', bool(gn) and cfg.dominates(gn, t), 'the file is parsed afresh on every reload',
               f, t.ast)
+
+
+def r8(run, ctx):
+    from rules import c01
+    run.share(ctx, c01.r3, 'R3', 'R8', 'a numprocesses edit is applied by the process manager '
+              '(shared with C01 R3, deficit and surplus are exact): the numprocesses-only branch '
+              'of reload_from_config just calls set_numprocesses - if the surplus selection '
+              'is off for some target (e.g. an empty slice for 0) the daemon does not run what '
+              'the file says and later reloads see nothing to do')
